@@ -31,6 +31,8 @@ def run(ctx):
     r5_missing(ctx)
     r6_statistic_table(ctx)
     r7_alignment(ctx)
+    r8_no_fitted_state(ctx)
+    r9_degenerate_shortcuts(ctx)
 
 
 def r1_window(ctx):
@@ -240,6 +242,65 @@ def r6_statistic_table(ctx):
     ctx.ob("C11.R6", EF, "Scale._get_shift_and_scale", gs, "shift and scale are computed from the same non-missing values, scale knowing the shift", ok, stmt="shift then scale")
 
 
+def r8_no_fitted_state(ctx):
+    ctx.rule("C11.R8", "Scale and Impute keep nothing fitted on the filter object (one instance is shared by all environments of Environments.scale/"
+                       "impute): filter() and its helpers store to no self attribute, pure `+=` accumulators excepted; the statistics handed to the apply "
+                       "loop are computed in the same call from the window")
+    n = 0
+    for cname in ("Scale", "Impute"):
+        c = ctx.model.cls(EF, cname)
+        for name, fn in sorted(c.methods.items()):
+            if name in ("__init__", "params"):
+                continue
+            ctx.touch(EF, f"{cname}.{name}")
+            n += 1
+            stores = []
+            for x in ast.walk(fn):
+                if isinstance(x, (ast.Assign, ast.AnnAssign)):
+                    for t in (x.targets if isinstance(x, ast.Assign) else [x.target]):
+                        for tt in (t.elts if isinstance(t, (ast.Tuple, ast.List)) else [t]):
+                            base = tt
+                            while isinstance(base, ast.Subscript):
+                                base = base.value
+                            if is_self_attr(base):
+                                stores.append((base.attr, x.lineno))
+                if isinstance(x, ast.Call) and isinstance(x.func, ast.Attribute) and x.func.attr in ("append", "extend", "update", "setdefault", "add", "insert", "pop", "clear") \
+                        and is_self_attr(x.func.value):
+                    stores.append((x.func.value.attr, x.lineno))
+            ctx.ob("C11.R8", EF, f"{cname}.{name}", fn, "the method stores nothing on the (shared) filter object", not stores, detail={"stores": stores}, stmt=f"{cname}.{name} stateless")
+    ctx.floor("C11.R8", "Scale/Impute read-path methods", n, 5)
+
+
+def r9_degenerate_shortcuts(ctx):
+    """iqr() short-cuts tiny samples to 0.  The inter-quartile range is identically 0 only for n <= 1 values, so the shortcut may be taken for
+    no larger n.  The guard is evaluated in the cardinality domain (values abstracted to n opaque elements)."""
+    from ..cardinality import CardEval, Elems, Unmodelled
+    ST = "coba/statistics.py"
+    ctx.rule("C11.R9", "statistics.iqr: the constant-0 shortcut is taken for sample sizes n <= 1 only (guard evaluated for n = 0..8 in the cardinality domain); "
+                       "the general path is p75 - p25 of the sorted values")
+    fn = ctx.fn(ST, "iqr")
+    P = fn.args.args[0].arg
+    shortcuts = [x for x in fn.body if isinstance(x, ast.If) and len(x.body) == 1 and isinstance(x.body[0], ast.Return) and isinstance(x.body[0].value, ast.Constant)]
+    for sc in shortcuts:
+        taken, unm = [], None
+        for n in range(0, 9):
+            try:
+                if CardEval({P: Elems(n)}).test(sc.test, {P: Elems(n)}):
+                    taken.append(n)
+            except Unmodelled as e:
+                unm = str(e)
+        ctx.ob("C11.R9", ST, "iqr", sc, "the constant shortcut is taken only for n <= 1 values", None if unm else all(n <= 1 for n in taken),
+               detail={"taken_for_n": taken, "unmodelled": unm}, stmt="iqr shortcut")
+    rets = [r for r in fn.body if isinstance(r, ast.Return)]
+    ok = len(rets) == 1 and isinstance(rets[0].value, ast.BinOp) and isinstance(rets[0].value.op, ast.Sub)
+    pc = [c for c in walk_shallow(fn) if isinstance(c, ast.Call) and call_name(c) == "percentile"]
+    okp = len(pc) == 1 and len(pc[0].args) >= 2 and unparse(pc[0].args[1]) in ("[0.25, 0.75]", "(0.25, 0.75)")
+    if ok and okp:
+        tg = parent(pc[0]).targets[0] if isinstance(parent(pc[0]), ast.Assign) else None
+        ok = isinstance(tg, ast.Tuple) and [unparse(e) for e in tg.elts] == [unparse(rets[0].value.right), unparse(rets[0].value.left)]
+    ctx.ob("C11.R9", ST, "iqr", rets[0] if rets else fn, "iqr is percentile 0.75 minus percentile 0.25", bool(ok and okp), stmt="iqr general path")
+
+
 def r7_alignment(ctx):
     ctx.rule("C11.R7", "statistics stay aligned with their columns: the columns handed to the statistic routine are selected by the same key list, in the same "
                        "order, that the results are zipped/compressed with")
@@ -293,6 +354,9 @@ def _chain(lp):
 
 
 CONTROLS = [
+    ("Scale keeps the first fit", EF, M.replace_stmt("Scale.filter", M.simple_has("scaling_vals = list(map(self._get_shift_and_scale, cols))"),
+                                                    "if getattr(self, '_fit', None) is None:\n    self._fit = list(map(self._get_shift_and_scale, cols))\nscaling_vals = self._fit"), "C11.R8"),
+    ("iqr shortcut for two values", "coba/statistics.py", M.replace_expr("iqr", "len(values) <= 1", "len(values) <= 2"), "C11.R9"),
     ("std around the shift", EF, M.replace_expr("Scale._scale_value", "stdev(values)", "stdev(values, -shift)"), "C11.R6"),
     ("imputations keyed by position", EF, M.replace_expr("Impute.filter", "zip(imputable_cols, unimputed)", "enumerate(unimputed)"), "C11.R7"),
     ("apply to the remainder only", EF, M.replace_expr("Scale.filter", "chain(fitting_interactions, remaining_interactions)", "remaining_interactions", nth=2), "C11.R1"),
